@@ -816,3 +816,49 @@ def relabelled_operator(rng, H):
     else:
         H2.qd = np.asarray(H2.qd) + int(rng.choice([-7, -1, 1, 2, 5, 1000]))
     return H2
+
+
+def long_range_hamiltonian(rng, qd, L, cplx=True):
+    """
+    Hermitian Hamiltonian with terms whose end points are NOT neighbours, compiled by the repository from operator chains:
+        H = sum_{(i,j,k)} [ J X^k_i S_{i+1} ... S_{j-1} (X^k)^dagger_j + h.c. ] + sum_i h_i N_i
+    with charged end-point operators X^k, a charge-neutral string S (the identity or a diagonal operator) on the sites in between, and fields on a
+    subset of the sites. Some sites are pure SPECTATORS: no term starts or ends there, their MPO tensor only carries identities, strings and
+    (possibly) a field, while channels with pending non-Hermitian operators pass through.
+    """
+    from .env import ptn
+    qd = np.asarray(qd)
+    d = len(qd)
+    diffs = [int(c) for c in np.unique(np.subtract.outer(qd, qd))]
+    K = int(rng.integers(1, 3))
+    opmap = {0: np.identity(d)}
+    Xs = []
+    for k in range(K):
+        c = int(rng.choice(diffs))
+        X = charged_operator(rng, qd, c, cplx)
+        opmap[1 + 2 * k] = X
+        opmap[2 + 2 * k] = X.conj().T
+        Xs.append(c)
+    oN, oS = 2 * K + 1, 2 * K + 2
+    opmap[oN] = np.diag(rng.normal(size=d))
+    opmap[oS] = np.diag(rng.choice([-1.0, 1.0], size=d))
+    spect = set(int(s) for s in rng.choice(L, size=int(rng.integers(1, max(2, L // 2 + 1))), replace=False)) if L >= 3 else set()
+    ends = [i for i in range(L) if i not in spect]
+    chains = []
+    pairs = [(i, j) for i in ends for j in ends if i < j]
+    if pairs:
+        sel = rng.choice(len(pairs), size=min(len(pairs), int(rng.integers(1, 5))), replace=False)
+        for s in sel:
+            i, j = pairs[int(s)]
+            k = int(rng.integers(0, K))
+            c = Xs[k]
+            J = complex(rng.normal(), rng.normal() if cplx else 0.0)
+            mid = [int(rng.choice([0, 0, oS]))] * (j - i - 1) if rng.random() < 0.5 else [int(rng.choice([0, oS])) for _ in range(j - i - 1)]
+            n = j - i + 1
+            chains.append(ptn.OpChain([1 + 2 * k] + mid + [2 + 2 * k], [0] + [c] * (n - 1) + [0], J if cplx else J.real, i))
+            chains.append(ptn.OpChain([2 + 2 * k] + mid + [1 + 2 * k], [0] + [-c] * (n - 1) + [0], np.conj(J) if cplx else J.real, i))
+    for i in range(L):
+        if rng.random() < 0.6 or not chains:
+            chains.append(ptn.OpChain([oN], [0, 0], float(rng.normal()), i))
+    g = ptn.OpGraph.from_opchains(chains, L, 0)
+    return ptn.MPO.from_opgraph(qd, g, opmap)
